@@ -19,6 +19,7 @@ import QbeeModel.Model.DbgEval
 import QbeeModel.Model.Blocks
 import QbeeModel.Model.Lex
 import QbeeModel.Model.Src
+import QbeeModel.Model.StmtDepth
 /-
   Line-protocol driver for the executable models.  One request per line, one
   answer per line.  Unknown or malformed requests answer `bad-op`; the models
@@ -819,6 +820,27 @@ def handleSrc : List String → Option String
             | .trap c => "trap " ++ c))
   | _ => none
 
+/-- sdepth <d0> <ev>... : the depths after every handled trap, then the number of frames -/
+def parseSDEv (t : String) : Option StmtDepth.Ev :=
+  match t.splitOn ":" with
+  | ["i", p, q] => do pure (StmtDepth.Ev.instr (← p.toNat?) (← q.toNat?))
+  | ["s"] => some .gosub
+  | ["e", p] => p.toNat?.map StmtDepth.Ev.enter
+  | ["l", p, q] => do pure (StmtDepth.Ev.leave (← p.toNat?) (← q.toNat?))
+  | ["n"] => some .handledNext
+  | ["g"] => some .handledGoto
+  | _ => none
+
+def handleSDepth (d0 : String) (r : List String) : Option String := do
+  let d ← d0.toNat?
+  let evs ← r.mapM parseSDEv
+  let (s, ds) := evs.foldl (fun (acc : StmtDepth.St × List Nat) e =>
+      let s' := StmtDepth.step acc.1 e
+      match e with
+      | .handledNext | .handledGoto => (s', acc.2 ++ [s'.depth])
+      | _ => (s', acc.2)) (({ depth := d, frames := [] } : StmtDepth.St), [])
+  pure (",".intercalate (ds.map toString) ++ " " ++ toString s.frames.length ++ " " ++ toString s.depth)
+
 def handle (toks : List String) : String :=
   match toks with
   | "print" :: r =>
@@ -914,6 +936,7 @@ def handle (toks : List String) : String :=
   | "asm" :: r => handleAsm r
   | "dbgmap" :: r => (handleDbgMap r).getD "bad-op"
   | "tick" :: r => (handleTick r).getD "bad-op"
+  | "sdepth" :: d0 :: r => (handleSDepth d0 r).getD "bad-op"
   | "dbg" :: r => (handleDbg r).getD "bad-op"
   | "dbgeval" :: r => (handleDbgEval r).getD "bad-op"
   | "blocks" :: r => (handleBlocks r).getD "bad-op"
